@@ -149,7 +149,32 @@ def gen_scenario(batch_seed, i, tier):
             else:
                 spec = ops.gen_cli(rng, name)
             threads[t].append(spec)
-    if sequential and not focus and rng.random() < 0.45:
+    if sequential and not focus and rng.random() < 0.18:
+        # iteration history: many matrix_iter consumptions (complete, half, materialised, interleaved, suspended) and a few
+        # saves on two symbols with geometries drawn from a small pool, so that equal row lengths recur
+        threads = [[]]
+        makes = []
+        for k in range(2):
+            m = ops.gen_make(rng, 's%d' % k, small=True, allow_bad=False)
+            while m['fn'] == 'make_sequence' or m['fn'].startswith('helpers.'):
+                m = ops.gen_make(rng, 's%d' % k, small=True, allow_bad=False)
+            makes.append(m)
+            threads[0].append(m)
+        pool = [(rng.choice((1, 2, 3)), rng.choice((None, 0, 3))) for _ in range(2)]
+        for k in range(rng.randint(8, 18)):
+            m = rng.choice(makes)
+            scale, border = rng.choice(pool)
+            base = {'sym': m['id'], 'symspec': {'fn': m['fn'], 'content': m['content'], 'kw': m['kw']}, 'name': 't0i%d' % k}
+            if rng.random() < 0.75:
+                threads[0].append(dict(base, op='miter', scale=scale, border=border, verbose=rng.random() < 0.3,
+                                       consume=rng.choice(('half', 'half', 'all', 'list', 'interleaved', 'abandoned')), rows=rng.randint(1, 12)))
+            else:
+                kind = rng.choice(('txt', 'pbm', 'pam', 'ppm', 'xbm', 'xpm', 'ans', 'png', 'svg'))
+                skw = {} if kind in ('txt', 'ans') else {'scale': scale}
+                if border is not None:
+                    skw['border'] = border
+                threads[0].append(dict(base, op='save', kind=kind, skw=core.enc(skw), route=rng.choice(('stream', 'path'))))
+    elif sequential and not focus and rng.random() < 0.5:
         # idempotence sweep: many automatically configured symbols (automatic version, level boosting, mask choice),
         # each re-encoded with what it reports
         threads = [[]]
@@ -235,7 +260,7 @@ def gen_scenario(batch_seed, i, tier):
                                 'errno': rng.choice(('ENOSPC', 'EIO', 'EACCES'))})
     clock = {'t0': float(rng.randint(10 ** 6, 2 * 10 ** 9)), 'tz': rng.choice((0, -19800, 28800)),
              'mode': rng.choice(('frozen', 'jumping')), 'deltas': [rng.choice((1, 60, 86400, -3600)) for _ in range(3)]}
-    flavour = 'twin' if twin else ('idem_sweep' if (sequential and not focus and threads[0] and threads[0][-1]['op'] == 'reencode' and len(threads[0]) >= 20)
+    flavour = 'twin' if twin else ('iter_history' if (sequential and not focus and len(threads[0]) > 2 and str(threads[0][2].get('name', '')).startswith('t0i')) else 'idem_sweep' if (sequential and not focus and threads[0] and threads[0][-1]['op'] == 'reencode' and len(threads[0]) >= 20)
                                    else ('focus_' + ('seq' if sequential else 'threads') if focus else ('mixed_seq' if sequential else 'mixed_threads')))
     return {'prop': PROP, 'seed': seed, 'index': i, 'tier': tier, 'flavour': flavour, 'threads': threads, 'trace': trace, 'granularity': gran,
             'policy': policy, 'schedule': None, 'faults': faults, 'sink_faults': sink_faults, 'clock': clock,
